@@ -272,7 +272,7 @@ def main(ctx, replay):
     rng = random.Random(ctx.seed)
     info = C.prologue(ctx)
     if info["hbin"] is None:
-        raise RuntimeError("harness build failed:\n" + info.get("go_log", ""))
+        raise C.HarnessBuildFailed(info.get("go_log", ""))
     cov = C.proof_coverage(info, "C17")
     assumptions = [
         "HMAC-SHA256 and SHA-256 are recomputed independently with Python hashlib/hmac over what the loopback target RECEIVED (method, raw request path before '?', body); the Coq model (parametric in the hash functions, run with transparent stand-ins) decides which secret and which canonical string",
